@@ -168,10 +168,58 @@ def judge_all(acc, fxm, fym, xs, ys, part, scalars=False):
                         judge(acc, fxm, fym, [a], [b], op, 'raw', 'trunc', 'scalar', part + 's')
 
 
+def judge_inplace(acc, fxm, fym, part):
+    """x op y, then x[i] = v / y[j] = w in place, then the same operation on the same objects again"""
+    xs = [c for c in (fxm.lo, fxm.hi, fxm.hi // 2 + 1, 1) if fxm.lo <= c <= fxm.hi][:3]
+    ys = [c for c in (fym.hi, fym.lo, 1, -1) if fym.lo <= c <= fym.hi and c != 0][:3]
+    if len(xs) < 2 or len(ys) < 2 or len(xs) != len(ys):
+        n = min(len(xs), len(ys))
+        xs, ys = xs[:n], ys[:n]
+        if n < 2:
+            return
+    for op in OPS:
+        fz = result_fmt(op, fxm, fym)
+        if fz.n_word < 1 or fz.n_word > 53:
+            continue
+        for method in ('raw', 'repr'):
+            case = {'part': part, 'inplace': True, 'fx': list(fxm), 'fy': list(fym), 'xs': xs, 'ys': ys, 'op': op, 'method': method}
+            acc.evaluations += 2
+            acc.transitions += 5
+            acc.nontrivial += 1
+            try:
+                x = build(fxm, xs, (len(xs),), 'raw')
+                y = build(fym, ys, (len(ys),), 'raw')
+                run_op(op, x, y, method)
+                x[0] = fxm.value(xs[-1]).__float__()
+                y[1] = fym.value(ys[0]).__float__()
+                z = run_op(op, x, y, method)
+                got = [fmt_of(z).value(c) for c in codes(z)]
+            except Exception as e:
+                acc.violation('exception', case, 'in-place history on %s %s %s raised %r' % (fxm.dtype, op, fym.dtype, e), {'part': part, 'op': op})
+                continue
+            nx = [xs[-1]] + xs[1:]
+            ny = [ys[0], ys[0]] + ys[2:]
+            lsb = Fraction(2) ** (-fz.n_frac)
+            for i, (a, b) in enumerate(zip(nx, ny)):
+                q = fxm.value(a) / fym.value(b)
+                if op == '/':
+                    ok = abs(got[i] - q) < lsb and ((q / lsb).denominator != 1 or got[i] == q)
+                elif op == '//':
+                    ok = got[i] == floor_frac(q)
+                else:
+                    ok = got[i] == fxm.value(a) - fym.value(b) * floor_frac(q)
+                if not ok:
+                    acc.violation('inplace', case, '%s %s %s (%s): after x[0]=..., y[1]=... element %d is %s for operands %s, %s'
+                                  % (fxm.dtype, op, fym.dtype, method, i, got[i], fxm.value(a), fym.value(b)), {'part': part, 'op': op})
+                    break
+            acc.outcome('inplace_ok')
+
+
 def bounds(tier, seed):
     k = 4 if tier == 'quick' else 5
     return {'small_scope': 'all ordered pairs of formats n_word<=%d, n_frac 0..n_word, both signednesses (%d formats) x every code pair with divisor != 0 '
-                           '(broadcast) x {/, //, %%} x {raw, repr} x roundings {trunc, floor, around}; scalar route for n_word<=%d'
+                           '(broadcast) x {/, //, %%} x {raw, repr} x roundings {trunc, floor, around}; operands built by value; in-place element assignment between two '
+                           'operations on the same objects; scalar route for n_word<=%d'
                            % (k, len(formats(k)), 2 if tier == 'quick' else 3),
             'boundary': 'format pairs n_word in %s x n_frac {0, mid, n} with result word<=53: dividend in {lo, lo+1, -1, 1, hi-1, hi}, divisor in '
                         '{+-1, +-2, +-3, lo, hi}' % ([6, 8, 13, 16, 21, 26] if tier == 'quick' else list(range(6, 27))),
@@ -204,6 +252,7 @@ def run_shard(sh):
         for fym in fs:
             ys = list(range(fym.lo, fym.hi + 1))
             judge_all(acc, fxm, fym, xs, ys, 'S', scalars=(fxm.n_word <= sh['ks'] and fym.n_word <= sh['ks']))
+            judge_inplace(acc, fxm, fym, 'S')
     else:
         for fxm in [f for f in bfmts(sh['nws']) if f.n_word == sh['nw']]:
             xs = sorted({fxm.lo, fxm.lo + 1, 1, fxm.hi - 1, fxm.hi} | ({-1} if fxm.signed else set()))
@@ -217,6 +266,9 @@ def replay(case):
     reset_class_state()
     acc = Acc()
     fxm, fym = Fmt(*case['fx']), Fmt(*case['fy'])
+    if case.get('inplace'):
+        judge_inplace(acc, fxm, fym, case['part'])
+        return [v for v in acc.violations if v['case'].get('op') == case['op'] and v['case'].get('method') == case['method']]
     if case.get('by') == 'value':
         judge(acc, fxm, fym, case['xs'], case['ys'], case['op'], case['method'], case['rounding'], case['shape'], case['part'], 'value')
     elif case.get('identity') or case['shape'] == 'outer':
